@@ -7,10 +7,12 @@
 EXTENDS Registry, Json, Sequences
 CONSTANT EMIT
 AllNames == UNION {Names(sp) : sp \in Spaces}
-VARIABLES sp, n
-Init == sp \in Spaces /\ n \in AllNames
-Next == UNCHANGED <<sp, n>>
-Spec == Init /\ [][Next]_<<sp, n>>
+\* place: where the name stands in the object handed to the tool - alone, or AFTER / BEFORE a valid entry of the space (a name of
+\* another space must be rejected wherever it stands; a name of the space must encode wherever it stands)
+VARIABLES sp, n, place
+Init == sp \in Spaces /\ n \in AllNames /\ place \in {"alone", "last", "first"}
+Next == UNCHANGED <<sp, n, place>>
+Spec == Init /\ [][Next]_<<sp, n, place>>
 RoundTrip == n \in Names(sp) => NameOf(sp, CodeOf(sp, n)) = n
-Emit == EMIT => PrintT("SCN " \o ToJson([space |-> sp, name |-> n, member |-> n \in Names(sp)]))
+Emit == EMIT => PrintT("SCN " \o ToJson([space |-> sp, name |-> n, member |-> n \in Names(sp), place |-> place]))
 =============================================================================
